@@ -175,20 +175,28 @@ pub fn check_wire_dir(
                 // permitted: the newest segment was an unacknowledged size probe that was taken
                 // back and cut again (shorter after a failed probe; it can also come back longer
                 // when the proven size grew in the meantime)
+                if !view.probe_expired_at(wp.src, wp.dst, p.conn_id, wp.t) {
+                    rep.counters.inc("c01_recuts_of_a_transmitted_probe_without_expiry_report");
+                }
                 if p.payload.len() < info.len {
                     rep.counters.inc("c01_probe_splits_seen");
                 } else {
                     rep.counters.inc("c01_probe_recut_longer_seen");
                 }
-                if let Some(t0) = info.first_recv {
-                    if t0 <= wp.t && res.resegmented_after_delivery_at.is_none() {
+                // (an earlier version that reaches the receiver at any time counts: a straggler of
+                // the old probe can arrive after the re-cut was sent and meet its pieces there)
+                if let Some(_t0) = info.first_recv {
+                    if res.resegmented_after_delivery_at.is_none() {
                         // The known mechanism: the probe itself timed out - it was the oldest
                         // unacknowledged segment, everything before it had been acknowledged to
                         // the sender. A probe taken back while earlier data is still outstanding
                         // (somebody else's timeout blamed on the probe) is a different defect and
                         // is not attributed to the known cause.
                         let acked_to_sender = acks_seen.iter().filter(|(t, _)| *t <= wp.t).map(|(_, a)| *a).max().unwrap_or(-1);
-                        if acked_to_sender >= idx - 1 {
+                        // ... and the library itself reports, at this instant, that the probe
+                        // timed out and was taken back (hook): a probe taken back for any other
+                        // reason is not the known mechanism either
+                        if acked_to_sender >= idx - 1 && view.probe_expired_at(wp.src, wp.dst, p.conn_id, wp.t) {
                             res.resegmented_after_delivery_at = Some(wp.t);
                             rep.counters.inc("c01_resegmented_after_delivery");
                         } else {
